@@ -1,0 +1,79 @@
+//go:build verif
+
+// Export shims for the verification harness under /verif (build tag "verif" only), property C05:
+// a reconnecting proxy is fully resynchronised.  Add-only; nothing here is compiled into a normal build.
+package xds
+
+import (
+	core "github.com/envoyproxy/go-control-plane/envoy/config/core/v3"
+	discovery "github.com/envoyproxy/go-control-plane/envoy/service/discovery/v3"
+
+	"istio.io/istio/pilot/pkg/model"
+)
+
+// VerifC05BareServer builds a DiscoveryServer that holds only what processRequest,
+// processDeltaRequest, pushXds, pushDeltaXds and forceEDSPush read: the generator table and the
+// environment (used by the workload generator for the ambient index).
+func VerifC05BareServer(env *model.Environment, gens map[string]model.XdsResourceGenerator) *DiscoveryServer {
+	return &DiscoveryServer{Env: env, Generators: gens}
+}
+
+// VerifC05NewConnection builds a Connection of server s around proxy, as Stream / StreamDeltas do
+// (newConnection / newDeltaConnection) followed by the assignments of initConnection.
+func VerifC05NewConnection(s *DiscoveryServer, id string, proxy *model.Proxy, stream DiscoveryStream, delta DeltaDiscoveryStream) *Connection {
+	var conn *Connection
+	if delta != nil {
+		conn = newDeltaConnection("", delta)
+	} else {
+		conn = newConnection("", stream)
+	}
+	conn.s = s
+	conn.SetID(id)
+	conn.proxy = proxy
+	return conn
+}
+
+// VerifC05ProcessRequest exposes (*DiscoveryServer).processRequest.
+func VerifC05ProcessRequest(s *DiscoveryServer, con *Connection, req *discovery.DiscoveryRequest) error {
+	return s.processRequest(req, con)
+}
+
+// VerifC05ProcessDeltaRequest exposes (*DiscoveryServer).processDeltaRequest.
+func VerifC05ProcessDeltaRequest(s *DiscoveryServer, con *Connection, req *discovery.DeltaDiscoveryRequest) error {
+	return s.processDeltaRequest(req, con)
+}
+
+// VerifC05InitConnection exposes (*DiscoveryServer).initConnection on a connection made by
+// VerifC05NewConnection (proxy may be nil there; initConnection sets it).
+func VerifC05InitConnection(s *DiscoveryServer, node *core.Node, con *Connection, identities []string) error {
+	return s.initConnection(node, con, identities)
+}
+
+// VerifC05CloseConnection exposes (*DiscoveryServer).closeConnection.
+func VerifC05CloseConnection(s *DiscoveryServer, con *Connection) {
+	s.closeConnection(con)
+}
+
+// VerifC05Registered reports whether a connection with this id is in the connection table
+// (what StartPush enumerates through AllClients).
+func VerifC05Registered(s *DiscoveryServer, conID string) bool {
+	s.adsClientsMutex.RLock()
+	defer s.adsClientsMutex.RUnlock()
+	_, ok := s.adsClients[conID]
+	return ok
+}
+
+// VerifC05Pending reports the number of connections with a queued (not yet dequeued) push.
+func VerifC05Pending(s *DiscoveryServer) int {
+	return s.pushQueue.Pending()
+}
+
+// VerifC05GlobalPushContext exposes globalPushContext.
+func VerifC05GlobalPushContext(s *DiscoveryServer) *model.PushContext {
+	return s.globalPushContext()
+}
+
+// VerifC05NeverRemoveDelta exposes neverRemoveDelta.
+func VerifC05NeverRemoveDelta(url string) bool {
+	return neverRemoveDelta(url)
+}
